@@ -200,8 +200,8 @@ def merge_tables(ctx):
     n_sym = 0
     for (pa, pb, t), (sig, arm) in sorted(sigs.items(), key=lambda kv: (kv[0][0], kv[0][1], not kv[0][2])):
         mk = (pb, pa, not t)
-        if mk not in sigs:
-            continue
+        if mk not in sigs or str(mk) < str((pa, pb, t)):
+            continue            # each unordered pair of mirror rows is compared once
         key = f"{short(pa,1)},{short(pb,1)},{'newer' if t else 'older'}"
         msig = sigs[mk][0]
         n_sym += 1
